@@ -372,7 +372,7 @@ def pool(net, rng, x, kind="MAX_POOL_2D", k=(2, 2), s=(2, 2), padding="VALID", a
 
 
 def elementwise(net, rng, kind, a, b, act="NONE", out_shape=None):
-    shp = out_shape or [max(p, q) for p, q in zip(a.shape, b.shape)] if len(a.shape) == len(b.shape) else list(a.shape)
+    shp = out_shape or ([max(p, q) for p, q in zip(a.shape, b.shape)] if len(a.shape) == len(b.shape) else list(a.shape))
     y = net.tensor(shp, a.dtype, _rs(rng, 0.01, 0.5), _zp(rng, a.dtype))
     opts = dict(FusedActivationFunction=ACT[act])
     if kind in ("MINIMUM", "MAXIMUM"):
@@ -575,7 +575,8 @@ SINGLE_KINDS = ["conv", "dw", "fc", "maxpool", "avgpool", "add", "sub", "mul", "
                 "softmax", "mean", "resize_bilinear", "resize_nearest", "quantize", "tconv", "reshape", "pad", "pad_bc",
                 "slice", "concat", "minimum", "maximum", "relu", "abs", "add_bcast", "mul_scalar", "transpose", "transpose_c", "conv_head", "prelu",
                 "conv_dil", "dw_dil", "avgpool_s4", "split", "mul_max", "relu_chain", "slice_conv",
-                "mean_axis", "pool_big", "conv_stride_asym", "squeeze_expand", "ew16"]
+                "mean_axis", "pool_big", "conv_stride_asym", "squeeze_expand", "ew16",
+                "concat_hw", "pad_conv", "fc_batch", "tconv_var", "resize_x", "ew_rank", "conv_big_kernel", "pool_then_ew"]
 
 
 def fam_single_op(rng, kind=None):
@@ -723,6 +724,89 @@ def fam_single_op(rng, kind=None):
         y.zp = 0
         if kd in ("MINIMUM", "MAXIMUM"):
             y.scale = x.scale
+    elif kind == "concat_hw":
+        # concatenation along height / width / depth of two or three feature maps, operators behind it
+        axis = rng.choice([1, 2, 3, 1, 2])
+        base = [1, rng.randrange(2, 9), rng.randrange(2, 9), rng.choice([3, 8, 16])]
+        parts = []
+        first = None
+        for i_ in range(rng.choice([2, 2, 3])):
+            shp = list(base)
+            shp[axis] = rng.randrange(1, 7) if axis != 3 else rng.choice([1, 8, 16, 5])
+            t_ = _inp(net, rng, shp, dt)
+            if first is None:
+                first = t_
+            elif not (dt == "uint8" and rng.random() < 0.4):
+                t_.scale, t_.zp = first.scale, first.zp
+            if rng.random() < 0.4:
+                t_ = pool(net, rng, t_, "MAX_POOL_2D", (1, 1), (1, 1), "VALID")
+            parts.append(t_)
+        y = concat(net, rng, parts, axis)
+        if rng.random() < 0.5:
+            y = conv2d(net, rng, y, 4, (rng.choice([1, 3]),) * 2, (1, 1), (1, 1), "SAME", "NONE")
+    elif kind == "pad_conv":
+        # PAD in front of kernel operators: paddings the hardware can absorb and paddings it cannot (wider than the kernel
+        # allows, asymmetric, together with stride 2)
+        hh, ww, cc = rng.randrange(3, 12), rng.randrange(3, 12), rng.choice([4, 8, 16])
+        x = _inp(net, rng, [1, hh, ww, cc], dt)
+        pt, pb, pl, pr = [rng.choice([0, 1, 1, 2, 3]) for _ in range(4)]
+        p_ = pad(net, rng, x, [[0, 0], [pt, pb], [pl, pr], [0, 0]])
+        kk = rng.choice([(3, 3), (2, 2), (5, 5), (3, 1), (1, 3), (4, 4)])
+        if p_.shape[1] < kk[0] or p_.shape[2] < kk[1]:
+            return None
+        st_ = rng.choice([(1, 1), (1, 1), (2, 2)])
+        ch = rng.choice(["conv", "conv", "dw", "maxpool", "avgpool"])
+        if ch == "conv":
+            y = conv2d(net, rng, p_, rng.choice([4, 8]), kk, st_, (1, 1), "VALID", rng.choice(["NONE", "RELU"]))
+        elif ch == "dw":
+            y = depthwise(net, rng, p_, kk, st_, (1, 1), "VALID")
+        else:
+            y = pool(net, rng, p_, "MAX_POOL_2D" if ch == "maxpool" else "AVERAGE_POOL_2D", kk, st_, "VALID")
+    elif kind == "fc_batch":
+        bsz = rng.choice([2, 3, 4, 8])
+        x = _inp(net, rng, [bsz, rng.choice([8, 16, 33, 64])], dt)
+        y = fully_connected(net, rng, x, rng.choice([4, 10, 16, 33]), bias=rng.random() < 0.8)
+        if rng.random() < 0.4:
+            y = fully_connected(net, rng, y, rng.choice([4, 8]))
+    elif kind == "tconv_var":
+        hh, ww, cc = rng.randrange(1, 8), rng.randrange(1, 8), rng.choice([1, 4, 8, 16])
+        x = _inp(net, rng, [1, hh, ww, cc], "int8")
+        kk, st_ = rng.choice([((3, 3), (2, 2)), ((2, 2), (2, 2)), ((4, 4), (2, 2)), ((1, 1), (1, 1)), ((3, 3), (1, 1)), ((5, 5), (2, 2)), ((2, 2), (1, 1))])
+        y = transpose_conv(net, rng, x, rng.choice([1, 4, 8]), kk, st_, rng.choice(["SAME", "VALID"]))
+    elif kind == "resize_x":
+        hh, ww, cc = rng.randrange(1, 6), rng.randrange(1, 6), rng.choice([1, 4, 8, 16])
+        x = _inp(net, rng, [1, hh, ww, cc], dt)
+        y = resize(net, rng, x, rng.choice(["RESIZE_BILINEAR", "RESIZE_NEAREST_NEIGHBOR"]), rng.choice([2, 4, 8]),
+                   align=rng.random() < 0.3, half=rng.random() < 0.4)
+    elif kind == "ew_rank":
+        # elementwise operators on tensors of rank 1-3 and broadcasts between ranks
+        shp = rng.choice([[12], [3, 8], [2, 5, 8], [1, 7, 16], [6, 1, 4]])
+        x = _inp(net, rng, shp, dt)
+        bshp = rng.choice([shp, shp[-1:], [1] * len(shp), shp[-2:] if len(shp) > 1 else shp])
+        b_ = _inp(net, rng, list(bshp), dt) if rng.random() < 0.5 else const_like(net, rng, list(bshp), dt)
+        a_, c_ = (x, b_) if rng.random() < 0.6 else (b_, x)
+        y = elementwise(net, rng, rng.choice(["ADD", "SUB", "MUL"]), a_, c_, out_shape=list(shp))
+    elif kind == "conv_big_kernel":
+        kk = rng.choice([(7, 7), (8, 8), (6, 3), (3, 8), (16, 1), (1, 16), (9, 9), (12, 2)])
+        hh, ww = kk[0] + rng.randrange(0, 5), kk[1] + rng.randrange(0, 5)
+        x = _inp(net, rng, [1, hh, ww, rng.choice([1, 3, 8])], dt)
+        if rng.random() < 0.6:
+            y = conv2d(net, rng, x, rng.choice([2, 8]), kk, (1, 1), (1, 1), rng.choice(["VALID", "SAME"]), "NONE")
+        else:
+            y = depthwise(net, rng, x, kk, (1, 1), (1, 1), rng.choice(["VALID", "SAME"]))
+    elif kind == "pool_then_ew":
+        # two graph inputs, kernel operators and elementwise operators reading the same tensors (shared IFMs, in-place reuse)
+        hh, ww, cc = rng.randrange(2, 10), rng.randrange(2, 10), rng.choice([4, 8, 16])
+        x = _inp(net, rng, [1, hh, ww, cc], dt)
+        x2 = _inp(net, rng, [1, hh, ww, cc], dt)
+        p1 = pool(net, rng, x, "MAX_POOL_2D", (3, 3), (1, 1), "SAME")
+        p2 = pool(net, rng, x2, "MAX_POOL_2D", (2, 2), (1, 1), "SAME")      # (a padded average pool is only exact to one step)
+        e1 = elementwise(net, rng, "ADD", p1, x)
+        e2 = elementwise(net, rng, rng.choice(["MUL", "SUB"]), p2, x2 if rng.random() < 0.5 else p1)
+        y = elementwise(net, rng, "ADD", e1, e2, rng.choice(["NONE", "RELU"]))
+        if rng.random() < 0.4:
+            net.output(y, e1)
+            return net
     elif kind in ("softmax",):
         x = _inp(net, rng, [1, rng.choice([2, 10, 64, 100])] if rng.random() < 0.6 else [1, h, w, c], dt)
         y = unary(net, rng, "SOFTMAX", x, dict(Beta=1.0))
